@@ -20,6 +20,7 @@ import (
 	"encoding/json"
 	"fmt"
 	"sort"
+	"strconv"
 	"strings"
 
 	"github.com/docker/go-connections/nat"
@@ -642,16 +643,39 @@ func (u *UlimitsConfig) DecodeMapstructure(value interface{}) error {
 		u.Single = 0
 		soft, ok := v["soft"]
 		if ok {
-			u.Soft = soft.(int)
+			i, err := ulimitValue(soft)
+			if err != nil {
+				return err
+			}
+			u.Soft = i
 		}
 		hard, ok := v["hard"]
 		if ok {
-			u.Hard = hard.(int)
+			i, err := ulimitValue(hard)
+			if err != nil {
+				return err
+			}
+			u.Hard = i
 		}
 	default:
 		return fmt.Errorf("unexpected value type %T for ulimit", value)
 	}
 	return nil
+}
+
+func ulimitValue(value interface{}) (int, error) {
+	switch v := value.(type) {
+	case int:
+		return v, nil
+	case string:
+		i, err := strconv.Atoi(v)
+		if err != nil {
+			return 0, fmt.Errorf("invalid value %q for ulimit", v)
+		}
+		return i, nil
+	default:
+		return 0, fmt.Errorf("unexpected value type %T for ulimit", value)
+	}
 }
 
 // MarshalYAML makes UlimitsConfig implement yaml.Marshaller
